@@ -4,7 +4,7 @@ from ..refs import c05_tankgen as G
 
 ID = 'C05'
 LEVEL = 'exploration'
-CASES = {'quick': 640, 'thorough': 6000}
+CASES = {'quick': 480, 'thorough': 6000}
 CASE_TIMEOUT = 20
 SHRINK_BUDGET = {'quick': 40, 'thorough': 240}
 TECHNIQUE = ('property-based testing (Hypothesis): generated tank networks with 1-6 conditional simple controls, simulated '
